@@ -63,7 +63,10 @@ MANIFEST = {
             "function of the sources' values -- value for value and type for type -- and of nothing else); without nested keys one pass is a fixed "
             "point and the order of application is irrelevant; the target is not required, every option string of a plain target is rejected, "
             "stripped configurations do not hold the target (refuted for items of a list of classes: open finding 15c) and re-parsing the stripped "
-            "configuration restores it.",
+            "configuration restores it. Each open finding inside the model is a decidable class with a kernel-checked witness, and the full "
+            "statement is proved on its complement: not fwdOK (nested-chain; C15_invariant_ordered), listHeld (list-item-target-in-dump; "
+            "C15_not_in_dump_exact), skippedHolding (skipped-link-target-dropped; C15_reparse_exact); subcommand-section-emptied is a property of "
+            "the empty subcommand section (C17/C01) and has no hypothesis in Props/C15.",
     "level_note": "Trusted: Lean kernel; axioms propext/Quot.sound/Classical.choice only; the correspondence harness. Parameters of the model (not "
                   "modelled): the compute functions (a table indexed by the state of the world at the time of the parse), type checks of values, the "
                   "merge of the channels into one namespace (C04/C05), loading and serialisation of the dump text (C01), links applied on "
